@@ -35,6 +35,11 @@ def main():
         unitx.finish_replay(chk, unitx.replay_case(chk, "immfield", chk.args.replay))
     res = unitx.run(chk, "immfield")
     class_rank = ["locality", "encoding", "independence", "roundtrip", "decode", "advertised", "panic"]
+    # Oracle (4) (the mask `bit_mask()` advertises) goes beyond the property statement, which
+    # speaks only of the bits written, their dependence on the value, and decoding. Mismatches
+    # are reported in the evidence as observations, not as violations.
+    observations = [v for v in res.get("violations", []) if ":advertised-mask" in v["key"]]
+    res["violations"] = [v for v in res.get("violations", []) if ":advertised-mask" not in v["key"]]
     unitx.record_violations(chk, res, order=lambda k: (
         next((i for i, c in enumerate(class_rank) if f":{c}" in k), 9), k))
     cells = res["cells"]
@@ -75,6 +80,8 @@ def main():
                              "I26, CALL36 = pcaddu18i si20 + jirl offs16 with +0x20000 rounding. "
                              "R_LARCH_CALL30 (variant Call30): only the union of the two instruction "
                              "fields is known to the oracle; its exact split is not modelled",
+        "advertised_mask_observations": [{"key": v["key"], "what": v["what"][:300]}
+                                         for v in observations],
         "engine_wall_s": res["wall_s"],
         "build_s": round(build_s, 1),
     }
